@@ -120,6 +120,18 @@ def sp_lines(ctx, label):
 
 
 def run(ctx):
+    import clilib as _cls
+    _cls.stream(ctx, "clisub", gen.cliverdict_lines(ctx.rng.fork("clisub0"), 4, 1, 300 if ctx.quick else 8000, (0, 1), 6, 6, 36, False, variants=[0, 1], tool_id=None),
+                "cmr-series-parallel [-b] -N: the written submatrix file vs. the matrix parsed from the input bytes",
+                lambda c: gen.CLISUB_CODES.get(c, str(c)))
+    import clilib as _cls
+    _cls.stream(ctx, "clisub", gen.cliverdict_lines(ctx.rng.fork("clisub1"), 4, 1, 300 if ctx.quick else 8000, (0, 1), 6, 6, 36, False, variants=[0, 1], tool_id=14),
+                "cmr-series-parallel [-b] -R: the written submatrix file vs. the matrix parsed from the input bytes",
+                lambda c: gen.CLISUB_CODES.get(c, str(c)))
+    import clilib as _cls
+    _cls.stream(ctx, "clisub", gen.cliverdict_lines(ctx.rng.fork("clisub2"), 4, 1, 300 if ctx.quick else 8000, (-1, 0, 1), 6, 6, 36, True, variants=[0], tool_id=None),
+                "cmr-series-parallel -N (ternary): the written submatrix file vs. the matrix parsed from the input bytes",
+                lambda c: gen.CLISUB_CODES.get(c, str(c)))
     import clilib
     clilib.stream(ctx, "cliverdict", gen.cliverdict_lines(ctx.rng.fork("cliverdict"), 4, 2, 400 if ctx.quick else 8000, (0, 1), 6, 6, 36, False),
                   "cmr-series-parallel [-b]: verdict line vs. the definition-level oracle on the matrix parsed from the input bytes",
